@@ -44,12 +44,12 @@ def _check_grammar(family, holes, perm, maxlen) -> None:
             continue        # rejected for another reason: outside the property
         if rec:
             # the constructor accepted a left-recursive grammar; show the consequence too when there is one
-            for toks in G.all_token_strings(maxlen):
+            for toks in G.all_token_strings(maxlen, G.terms_of(g)):
                 kind, _ = G.parse_tokens(parser, toks, fuel_limit=5000)
                 if kind == "fuel":
                     raise Violation(f"accepts-recursive-and-loops :: {what}: left-recursive grammar accepted; parse of {' '.join(toks)!r} grows its stack without bound")
             raise Violation(f"accepts-recursive :: {what}: some symbol can reach itself without consuming a token, yet the constructor accepted the grammar")
-        for toks in G.all_token_strings(maxlen):
+        for toks in G.all_token_strings(maxlen, G.terms_of(g)):
             kind, val = G.parse_tokens(parser, toks)
             if kind == "fuel":
                 raise Violation(f"no-termination :: {what}: parse of {' '.join(toks)!r} does not finish within the step budget")
